@@ -225,6 +225,25 @@ def battery(quick=True):
                 return run_cross(cfg, ref, unk, rr, ur)
             attempt(f"crosscorrelate[{lay},{cfgname}]", cross_case)
 
+        # redshifts exactly on the bin edges: the closed side decides the bin (and whether zmin / zmax belong to the binning)
+        def on_edges(closed):
+            L = layouts["equator"]
+            edges = np.array([0.1, 0.2, 0.3, 0.4])
+            data = patched(L, 30, 1.2 * deg, zlo=0.05, zhi=0.45)
+            rand = patched(L, 40, 1.2 * deg, zlo=0.05, zhi=0.45)
+            for d_ in (data, rand):
+                d_.loc[d_.index[::3], "z"] = rng.choice(edges, size=len(d_.index[::3]))
+            cfg = yaw.Configuration.create(rmin=5.0, rmax=60.0, unit="arcmin", edges=edges, closed=closed)
+            d = make_cat(data)
+            r = make_cat(rand, centres=d)
+            res = run_auto(cfg, d, r)
+            if res is not True:
+                return res
+            unk = make_cat(patched(L, 30, 1.5 * deg, weights=False).drop(columns="z"), centres=d)
+            return run_cross(cfg, d, unk, r, None)
+        for closed in ("left", "right"):
+            attempt(f"auto+crosscorrelate[redshifts on the bin edges, closed={closed}]", lambda closed=closed: on_edges(closed))
+
         # single-object patches and a patch without objects in any bin
         def singles():
             L = layouts["equator"]
